@@ -446,7 +446,12 @@ impl<'a, 'src: 'a> Compiler<'a, 'src> {
   /// Emit byte code for a return
   fn emit_return(&mut self, line: u32) {
     match self.fun_kind {
-      FunKind::Initializer => self.emit_byte(SymbolicByteCode::GetLocal(0), line),
+      FunKind::Initializer => self.variable_get(&Token::new(
+        TokenKind::Self_,
+        Lexeme::Slice(SELF),
+        line,
+        line,
+      )),
       _ => self.emit_byte(SymbolicByteCode::Nil, line),
     }
 
